@@ -102,3 +102,9 @@ func inferK2(r *Report, tier string) {
 	}
 	r.InfoOb("infer", "done", 0, "discovery only")
 }
+
+func init() {
+	register("INFER-MEMO", func(r *Report, tier string) {
+		ruleMemoKeyCoversInputs(r, "memo", 0, nil, "")
+	})
+}
